@@ -9,6 +9,7 @@ import PymaVerif.Model.Nof
 import PymaVerif.Model.Machine
 import PymaVerif.Model.Cauchy
 import PymaVerif.Model.Projector
+import PymaVerif.Model.Validate
 
 open Lean Pyma Pyma.Dsl Pyma.BlockDiag
 
@@ -270,6 +271,18 @@ def runMachine (j : Json) : Except String String := do
             | .ok v => acc := showVal v :: acc
             | .error e => failed := some e
         outs := (match failed with | some e => showErr e | none => "[" ++ String.intercalate "," acc.reverse ++ "]") :: outs
+    | "box" =>   -- series[s][:, 0:n]: all elements of the request in C order (first index outermost)
+        let mut acc : List String := []
+        let mut failed : Option Machine.Err := none
+        for a in List.range 2 do
+          for m in List.range n do
+            if failed.isNone then
+              let (res, w') := getItem sys 100000 s [a, m] w
+              w := w'
+              match res with
+              | .ok v => acc := showVal v :: acc
+              | .error e => failed := some e
+        outs := (match failed with | some e => showErr e | none => "[" ++ String.intercalate "," acc.reverse ++ "]") :: outs
     | "pop" => w := w.set s [i, n] none; outs := "ok" :: outs
     | "contains" =>
         let b := match w.get s [i, n] with | some (.val .zero) => false | _ => true
@@ -377,6 +390,44 @@ def runProj (j : Json) : Except String String := do
   else throw s!"unknown side {side}"
 end ProjCmd
 
+
+/-! ## `validate`: the set-up time decision logic of `block_diagonalize` on a configuration of facts -/
+namespace ValCmd
+open Pyma.Validate
+
+def getB (j : Json) (k : String) : Except String Bool := j.getObjValAs? Bool k
+
+def parseMaskFacts (m : Json) : Except String (Nat × Bool × Bool × Bool) := do
+  pure (← m.getObjValAs? Nat "block", ← getB m "is_array", ← getB m "symmetric", ← getB m "eliminates_degenerate")
+
+def parseFDv (j : Json) : Except String Validate.FD := do
+  match (← j.getObjValAs? String "kind") with
+  | "empty" => pure .empty
+  | "blocks" => do pure (.blocks (← natList (← getArr j "blocks")))
+  | "bare" => do pure (.bare (← getB j "is_array") (← getB j "symmetric") (← getB j "eliminates_degenerate"))
+  | "dict" => do pure (.dict (← (← getArr j "masks").toList.mapM parseMaskFacts))
+  | k => throw s!"unknown fd kind {k}"
+
+def parseZT : String → Except String ZeroTest
+  | "zero" => pure .zero | "nonzero" => pure .nonzero | "unknown" => pure .unknown
+  | s => throw s!"unknown zero test {s}"
+
+def runValidate (j : Json) : Except String String := do
+  let off ← (← getArr j "off").toList.mapM fun e => do
+    pure ((← e.getObjValAs? Nat "i", ← e.getObjValAs? Nat "j"), ← parseZT (← e.getObjValAs? String "test"))
+  let c : Config := {
+    hermitian := ← getB j "hermitian", customSolver := ← getB j "custom_solver", legacySolver := ← getB j "legacy_solver",
+    fd := ← parseFDv (← j.getObjVal? "fd"), vectors := ← getB j "vectors", pairForm := ← getB j "pair_form",
+    biorthonormal := ← getB j "biorthonormal", implicit := ← getB j "implicit", blockedInput := ← getB j "blocked_input",
+    symbolicH0 := ← getB j "symbolic_h0", directSolver := ← getB j "direct_solver", arrayVectors := ← getB j "array_vectors",
+    nblocks := ← j.getObjValAs? Nat "nblocks", off := off, diagAllZero := ← getB j "diag_all_zero" }
+  pure (match setup c with
+    | .ok => "ok"
+    | .valueError s => s!"ValueError:{s}"
+    | .typeError s => s!"TypeError:{s}"
+    | .notImplemented s => s!"NotImplementedError:{s}")
+end ValCmd
+
 partial def loop (h : IO.FS.Stream) : IO Unit := do
   let line ← h.getLine
   if line.isEmpty then return ()
@@ -399,6 +450,10 @@ partial def loop (h : IO.FS.Stream) : IO Unit := do
       | .error e => IO.println s!"bad-request {e}"
     | .ok "nof" =>
       match runNof j with
+      | .ok l => IO.println l
+      | .error e => IO.println s!"bad-request {e}"
+    | .ok "validate" =>
+      match ValCmd.runValidate j with
       | .ok l => IO.println l
       | .error e => IO.println s!"bad-request {e}"
     | .ok "proj" =>
